@@ -17,6 +17,10 @@ struct Tup(i32, String);
 #[derive(Serialize, Deserialize, PartialEq, Debug, Clone)]
 struct St { a: i32, b: Option<String> }
 #[derive(Serialize, Deserialize, PartialEq, Debug, Clone)]
+struct Rf { right: i32, rows: u8, r#ref: bool, a_r: i32 }
+#[derive(Serialize, Deserialize, PartialEq, Debug, Clone)]
+enum Ev { Rect { right: i32, radius: i32 } }
+#[derive(Serialize, Deserialize, PartialEq, Debug, Clone)]
 enum E { U, N(i32), T(i32, i32), S { x: i32 } }
 
 fn sym(s: &str) -> Value { Value::symbol(s) }
@@ -41,6 +45,8 @@ fn shapes() -> Vec<(&'static str, Value, Value)> {
         ("newtype variant", to_value(E::N(3)).unwrap(), Value::cons(sym("N"), Value::from(3))),
         ("tuple variant", to_value(E::T(1, 2)).unwrap(), Value::cons(sym("T"), list(vec![Value::from(1), Value::from(2)]))),
         ("struct variant", to_value(E::S { x: 9 }).unwrap(), Value::cons(sym("S"), list(vec![Value::cons(sym("x"), Value::from(9))]))),
+        ("struct with r-fields", to_value(Rf { right: 1, rows: 2, r#ref: true, a_r: 3 }).unwrap(), list(vec![Value::cons(sym("right"), Value::from(1)), Value::cons(sym("rows"), Value::from(2)), Value::cons(sym("ref"), Value::from(true)), Value::cons(sym("a_r"), Value::from(3))])),
+        ("struct variant with r-fields", to_value(Ev::Rect { right: 1, radius: 2 }).unwrap(), Value::cons(sym("Rect"), list(vec![Value::cons(sym("right"), Value::from(1)), Value::cons(sym("radius"), Value::from(2))]))),
         ("char", to_value('c').unwrap(), Value::Char('c')),
         ("u8", to_value(200u8).unwrap(), Value::from(200)),
         ("i8", to_value(-5i8).unwrap(), Value::from(-5)),
@@ -54,7 +60,7 @@ fn shapes() -> Vec<(&'static str, Value, Value)> {
 
 fn cases14(_ob: &str) -> Vec<String> {
     let mut out: Vec<String> = (0..shapes().len()).map(|i| format!("shape:{}", i)).collect();
-    for i in 0..8 { out.push(format!("alt:{}", i)); }
+    for i in 0..11 { out.push(format!("alt:{}", i)); }
     out
 }
 fn data_err<T: std::fmt::Debug>(r: Result<T, serde_lexpr::Error>, what: &str) -> Option<String> {
@@ -72,6 +78,9 @@ fn check14(case: &str) -> Option<String> {
             3 => data_err(from_value::<(i32, i32)>(&Value::append(vec![Value::from(1)], Value::from(2))), "improper list as tuple"),
             4 => data_err(from_value::<Vec<i32>>(&Value::from("str")), "string as sequence"),
             5 => data_err(from_value::<(i32, i32)>(&Value::append(vec![Value::from(1), Value::from(2)], Value::from(3))), "improper list (1 2 . 3) as 2-tuple"),
+            7 => data_err(from_value::<Vec<i32>>(&Value::Nil), "#nil as sequence"),
+            8 => data_err(from_value::<Vec<i32>>(&Value::append(vec![Value::from(1), Value::from(2)], Value::Nil)), "(1 2 . #nil) as sequence"),
+            9 => data_err(from_value::<(i32, i32)>(&Value::append(vec![Value::from(1), Value::from(2)], Value::Nil)), "(1 2 . #nil) as tuple"),
             6 => data_err(from_value::<Tup>(&Value::append(vec![Value::from(1), Value::from("a")], Value::from(3))), "improper list as tuple struct"),
             _ => data_err(from_value::<(i32, i32)>(&sym("x")), "symbol as tuple"),
         },
